@@ -33,9 +33,6 @@ OutcomeOf(e) ==
         probes |-> [i \in 1..Len(Probes) |-> [det |-> Determined(p, Probes[i]) /\ ExactSteps(o.ast.steps), res |-> Response(p, Probes[i])]]]
 Outcomes == [i \in 1..NPool |-> OutcomeOf(Pool[i])]
 
-\* evaluated once, at start-up, in TLC's main thread (the deep recursion of the PEG interpreter needs its big stack)
-ASSUME Len(Outcomes) = NPool
-
 VARIABLE hist          \* sequence of pool indices
 Init == hist = <<>>
 Next == Len(hist) < MaxCalls /\ \E i \in 1..NPool : hist' = Append(hist, i)
